@@ -49,6 +49,23 @@ theorem random_mask_column (N L : Int) (p : ℚ) (us : List ℚ) (i : Nat) (hi :
   unfold randomMask
   simp [hi]
 
+/-! ### the pair a call uses -/
+
+/-- with several accelerations per instance the drawn index selects the centre fraction and the
+acceleration **of the same position**: the budget below is the one of the chosen pair -/
+theorem choose_pairs (accs cfs : List ℚ) (i : Nat) (c r : ℚ)
+    (h : chooseAcceleration false accs cfs i = .ok (c, r)) : cfs[i]? = some c ∧ accs[i]? = some r := by
+  unfold chooseAcceleration at h
+  simp only [Bool.false_eq_true, if_false] at h
+  cases hc : cfs[i]? <;> cases hr : accs[i]? <;> simp_all
+
+/-- `uniform_range=True` is rejected, whatever the lists and the draw -/
+theorem choose_uniform_rejects (accs cfs : List ℚ) (i : Nat) :
+    chooseAcceleration true accs cfs i = .error "NotImplementedError" := by
+  simp [chooseAcceleration]
+
+example : chooseAcceleration false [4, 8] [2 / 25, 1 / 25] 1 = .ok (1 / 25, 8) := by decide +kernel
+
 /-! ### Gaussian 1-D / 2-D -/
 
 /-- **the kernel loop adds exactly `k + 1 − count` new cells** (so `k + 1` from `count = 0`; none when
